@@ -42,6 +42,15 @@ def _make_case_class(base, machine_path, config_file, patches, platform, mock_da
             return copy.deepcopy(mock_data) if mock_data else {}
 
         def _exception_handler(self, loop, context):
+            if getattr(self, "rig_booting", False):
+                # during boot behave like the repo's test case: stop the loop so that setUp() raises
+                try:
+                    loop.stop()
+                except RuntimeError:
+                    pass
+                if not self._exception:
+                    self._exception = context
+                return
             self.rig_exceptions.append(context)
 
     return _Case
@@ -99,9 +108,12 @@ class Rig:
         orig = self._mtc.TimeTravelLoop
         if self._loop_cls is not None:
             self._mtc.TimeTravelLoop = self._loop_cls
+        self.case.rig_booting = True
         try:
             self.case.setUp()
+            self.case.rig_booting = False
         except BaseException as e:   # pylint: disable=broad-except
+            self.case.rig_booting = False
             self.startup_error = e
             try:
                 self.stop()
@@ -127,7 +139,10 @@ class Rig:
                 try:
                     loop.close()
                 except BaseException:   # pylint: disable=broad-except
-                    pass
+                    try:
+                        loop.close(ignore_running_tasks=True)
+                    except BaseException:   # pylint: disable=broad-except
+                        pass
         finally:
             case.machine = None
             self.machine = None
